@@ -14,7 +14,9 @@ pub fn arch_check(ctx: &Ctx, arch: Arch, stream: u64, rule: &str) -> i32 {
         "the emulator's reading of the printed instruction subset (DESIGN.md 3.4, Appendix A)".into(),
         "positional AxCut machine (DESIGN.md 3.3)".into(),
     ];
-    let n = ctx.tier.pick(2000, 120000);
+    // debugging aid: VERIF_ONLY=matrix runs only the placement matrix
+    let only_matrix = std::env::var("VERIF_ONLY").as_deref() == Ok("matrix");
+    let n = if only_matrix { 0 } else { ctx.tier.pick(2000, 120000) };
     let run = |b: &[u8]| {
         let c = decode(ctx, arch, b);
         run_fun_case(ctx, arch, &c.prog, &c.tuples, false).0
@@ -30,7 +32,7 @@ pub fn arch_check(ctx: &Ctx, arch: Arch, stream: u64, rule: &str) -> i32 {
     // second domain: directly generated linear programs (stateful generator)
     if report.violations.is_empty() {
         let lcfg = lin_cfg_for(ctx, arch);
-        let n2 = ctx.tier.pick(2500, 200000);
+        let n2 = if only_matrix { 0 } else { ctx.tier.pick(2500, 200000) };
         let run2 = |b: &[u8]| run_lin_case(ctx, arch, &decode_lin(&lcfg, b), false).0;
         let out2 = drive(&mut ev, ctx.seed, stream + 100, n2, 60, 2500, 400, &run2);
         if let Some((bytes, f)) = out2.failure {
@@ -41,7 +43,7 @@ pub fn arch_check(ctx: &Ctx, arch: Arch, stream: u64, rule: &str) -> i32 {
     // third domain: directly generated Core programs taken through focusing, shrinking and
     // linearization (AxCut shapes the Fun front end does not produce)
     if report.violations.is_empty() {
-        let n4 = ctx.tier.pick(1500, 100000);
+        let n4 = if only_matrix { 0 } else { ctx.tier.pick(1500, 100000) };
         let run4 = |b: &[u8]| run_core_lin_case(ctx, arch, b, false).0;
         let out4 = drive(&mut ev, ctx.seed, stream + 300, n4, 60, 1500, 300, &run4);
         if let Some((bytes, f)) = out4.failure {
@@ -55,7 +57,7 @@ pub fn arch_check(ctx: &Ctx, arch: Arch, stream: u64, rule: &str) -> i32 {
     if report.violations.is_empty() && arch == Arch::X86 {
         let tc = crate::native::Toolchain::new(ctx.scratch.clone());
         let lcfg = lin_cfg_for(ctx, arch);
-        let n3 = ctx.tier.pick(250, 5000);
+        let n3 = if only_matrix { 0 } else { ctx.tier.pick(250, 5000) };
         let run3 = |b: &[u8]| native_cross_check(ctx, &tc, &decode_lin(&lcfg, b));
         let out3 = drive(&mut ev, ctx.seed, stream + 200, n3, 60, 2500, 100, &run3);
         if let Some((bytes, f)) = out3.failure {
